@@ -101,54 +101,68 @@ Variable p : list (Z * fault).
 Notation P := (plan_at p).
 
 (* what the operations inside the loop leave alone: the Screen object and every terminal mode
-   except cursor visibility (which stop() forces anyway) *)
+   except cursor visibility (which stop() forces anyway); a plain screen writes no mode at all *)
 Definition Keeps (s s' : st) : Prop :=
-  scr s' = scr s /\ set_mode 25 true (tm s') = set_mode 25 true (tm s).
+  scr s' = scr s /\ set_mode 25 true (tm s') = set_mode 25 true (tm s) /\ (c_hook c = false -> tm s' = tm s).
 
 Lemma Keeps_refl s : Keeps s s.
-Proof. split; reflexivity. Qed.
+Proof. unfold Keeps. repeat split. Qed.
 Lemma Keeps_trans a b d : Keeps a b -> Keeps b d -> Keeps a d.
-Proof. intros [A1 A2] [B1 B2]. split; congruence. Qed.
+Proof.
+  intros (A1 & A2 & A3) (B1 & B2 & B3). unfold Keeps. repeat split; try congruence.
+  intros H. rewrite (B3 H). apply A3. exact H.
+Qed.
+Ltac keeps_triv := unfold Keeps; repeat split; try (intros; reflexivity).
 
 Definition outcome {A} (r0 : res A) (o : option fault) : res A :=
   match o with None => r0 | Some f => RErr (exn_of f) end.
 
-(* [SemR m L r0]: from any state with a started screen, [m] performs the actions of [L] cut at the
-   first planned fault, numbering the callbacks from the current index; its result is [r0] when no
-   fault was hit and exactly the planned exception otherwise. *)
-Definition SemR {A} (m : M A) (L : list tev) (r0 : res A) : Prop :=
-  forall s, s_started (scr s) = true ->
+(* [SemA al m L r0 Q]: from any state with a started screen and pending alarms [al], [m] performs
+   the actions of [L] cut at the first planned fault, numbering the callbacks from the current
+   index; its result is [r0] when no fault was hit (and then the pending alarms satisfy [Q]) and
+   exactly the planned exception otherwise. *)
+Definition SemA {A} (al : list alarm) (m : M A) (L : list tev) (r0 : res A) (Q : list alarm -> Prop) : Prop :=
+  forall s, s_started (scr s) = true -> alarms s = al ->
     Keeps s (snd (m s)) /\
     acts (snd (m s)) = acts s ++ fst (cut P (n s) L) /\
     n (snd (m s)) = n s + ncb (fst (cut P (n s) L)) /\
-    fst (m s) = outcome r0 (snd (cut P (n s) L)).
-Definition Sem {A} (m : M A) (L : list tev) (v : A) : Prop := SemR m L (ROk v).
+    fst (m s) = outcome r0 (snd (cut P (n s) L)) /\
+    (snd (cut P (n s) L) = None -> Q (alarms (snd (m s)))).
+(* the common case: returns [v], leaves the pending alarms alone *)
+Definition Sem {A} (m : M A) (L : list tev) (v : A) : Prop := forall al, SemA al m L (ROk v) (eq al).
 
-Lemma Sem_ret {A} (v : A) : Sem (ret v) [] v.
+Lemma SemA_bind {A B} al (m : M A) (f : A -> M B) L1 L2 v r Q1 Q2 :
+  SemA al m L1 (ROk v) Q1 -> (forall al1, Q1 al1 -> SemA al1 (f v) L2 r Q2) ->
+  SemA al (bindM m f) (L1 ++ L2) r Q2.
 Proof.
-  intros s Hs. cbn [ret fst snd cut ncb outcome]. rewrite app_nil_r, Z.add_0_r.
-  repeat split; reflexivity.
-Qed.
-
-Lemma SemR_bind {A B} (m : M A) (f : A -> M B) L1 L2 v r :
-  Sem m L1 v -> SemR (f v) L2 r -> SemR (bindM m f) (L1 ++ L2) r.
-Proof.
-  intros Hm Hf s Hs. destruct (Hm s Hs) as (K1 & A1 & N1 & R1).
+  intros Hm Hf s Hs Ha. destruct (Hm s Hs Ha) as (K1 & A1 & N1 & R1 & Q1').
   unfold bindM. rewrite cut_app.
   destruct (m s) as [r1 s1] eqn:E. cbn [fst snd] in *.
   destruct (snd (cut P (n s) L1)) as [ft|] eqn:C1; cbn [outcome] in R1; subst r1.
-  - cbn [fst snd]. split; [exact K1|split; [exact A1|split; [exact N1|rewrite C1; reflexivity]]].
+  - cbn [fst snd]. split; [exact K1|split; [exact A1|split; [exact N1|split; [rewrite C1; reflexivity|]]]].
+    rewrite C1. discriminate.
   - assert (Hs1 : s_started (scr s1) = true) by (destruct K1 as [K _]; rewrite K; exact Hs).
-    destruct (Hf s1 Hs1) as (K2 & A2 & N2 & R2). rewrite N1 in *.
+    destruct (Hf _ (Q1' eq_refl) s1 Hs1 eq_refl) as (K2 & A2 & N2 & R2 & Q2'). rewrite N1 in *.
     destruct (f v s1) as [r2 s2]. cbn [fst snd] in *.
     split; [eapply Keeps_trans; eassumption|].
     split; [rewrite A2, A1, app_assoc; reflexivity|].
-    split; [rewrite N2, ncb_app; lia|exact R2].
+    split; [rewrite N2, ncb_app; lia|]. split; [exact R2|exact Q2'].
 Qed.
 
 Lemma Sem_bind {A B} (m : M A) (f : A -> M B) L1 L2 v w :
   Sem m L1 v -> Sem (f v) L2 w -> Sem (bindM m f) (L1 ++ L2) w.
-Proof. apply SemR_bind. Qed.
+Proof. intros Hm Hf al. eapply SemA_bind; [apply Hm|]. intros al1 <-. apply Hf. Qed.
+
+(* a step that leaves the alarms alone, followed by anything *)
+Lemma SemA_step {A B} al (m : M A) (f : A -> M B) L1 L2 v r Q :
+  Sem m L1 v -> SemA al (f v) L2 r Q -> SemA al (bindM m f) (L1 ++ L2) r Q.
+Proof. intros Hm Hf. eapply SemA_bind; [apply Hm|]. intros al1 <-. exact Hf. Qed.
+
+Lemma Sem_ret {A} (v : A) : Sem (ret v) [] v.
+Proof.
+  intros al s Hs Ha. cbn [ret fst snd cut ncb outcome]. rewrite app_nil_r, Z.add_0_r.
+  split; [apply Keeps_refl|]. repeat split; try reflexivity. intros _. symmetry; exact Ha.
+Qed.
 
 Lemma Sem_seq {A} (m : M unit) (k : M A) L1 L2 w :
   Sem m L1 tt -> Sem k L2 w -> Sem (bindM m (fun _ => k)) (L1 ++ L2) w.
@@ -156,54 +170,70 @@ Proof. intros; eapply Sem_bind; eassumption. Qed.
 
 Lemma Sem_get {A B} (g : st -> A) (k : A -> M B) L w :
   (forall x, Sem (k x) L w) -> Sem (bindM (get g) k) L w.
-Proof. intros H s Hs. unfold bindM, get. apply H. exact Hs. Qed.
+Proof. intros H al s Hs Ha. unfold bindM, get. apply H; assumption. Qed.
 
 Lemma Sem_cb t : is_cb t = true -> Sem (cb p t) [t] tt.
 Proof.
-  intros Ht s Hs. unfold cb. cbn [cut]. rewrite Ht.
-  assert (Ha : is_act t = true) by (unfold is_act; rewrite Ht; reflexivity).
-  destruct (P (n s)) eqn:Ep; cbn [fst snd ncb outcome]; rewrite ?acts_cons, ?Ha, ?Ht;
-    (split; [split; reflexivity|split; [reflexivity|split; [cbn [n]; lia|reflexivity]]]).
+  intros Ht al s Hs Ha. unfold cb. cbn [cut]. rewrite Ht.
+  assert (Hact : is_act t = true) by (unfold is_act; rewrite Ht; reflexivity).
+  destruct (P (n s)) eqn:Ep; cbn [fst snd ncb outcome]; rewrite ?acts_cons, ?Hact, ?Ht;
+    (split; [keeps_triv|split; [reflexivity|split; [cbn [n]; lia|split; [reflexivity|]]]]).
+  - discriminate.
+  - intros _. symmetry; exact Ha.
 Qed.
 
 Lemma Sem_emit_silent t : is_act t = false -> Sem (emit t) [] tt.
 Proof.
-  intros Ht s Hs. unfold emit. cbn [fst snd cut ncb outcome]. rewrite acts_cons, Ht.
-  split; [split; reflexivity|split; [reflexivity|split; [cbn [n]; lia|reflexivity]]].
+  intros Ht al s Hs Ha. unfold emit. cbn [fst snd cut ncb outcome]. rewrite acts_cons, Ht.
+  split; [keeps_triv|split; [reflexivity|split; [cbn [n]; lia|split; [reflexivity|]]]].
+  intros _. symmetry; exact Ha.
 Qed.
 
 Lemma Sem_emit_draw : Sem (emit TDraw) [TDraw] tt.
 Proof.
-  intros s Hs. unfold emit. cbn [fst snd cut ncb outcome is_cb]. rewrite acts_cons. cbn [is_act is_cb orb].
-  split; [split; reflexivity|split; [reflexivity|split; [cbn [n]; lia|reflexivity]]].
+  intros al s Hs Ha. unfold emit. cbn [fst snd cut ncb outcome is_cb]. rewrite acts_cons. cbn [is_act is_cb orb].
+  split; [keeps_triv|split; [reflexivity|split; [cbn [n]; lia|split; [reflexivity|]]]].
+  intros _. symmetry; exact Ha.
 Qed.
 
-Ltac silent := intros s Hs; cbn [fst snd cut ncb outcome]; rewrite app_nil_r, Z.add_0_r;
-               (split; [split; reflexivity|split; [reflexivity|split; reflexivity]]).
-
 Lemma Sem_set_size_known b : Sem (set_size_known b) [] tt.
-Proof. unfold set_size_known. silent. Qed.
+Proof.
+  intros al s Hs Ha. unfold set_size_known. cbn [fst snd cut ncb outcome]. rewrite app_nil_r, Z.add_0_r.
+  split; [keeps_triv|]. repeat split; try reflexivity. intros _. symmetry; exact Ha.
+Qed.
 Lemma Sem_set_hooked b : Sem (set_hooked b) [] tt.
-Proof. unfold set_hooked. silent. Qed.
-Lemma Sem_set_alarms l : Sem (set_alarms l) [] tt.
-Proof. unfold set_alarms. silent. Qed.
+Proof.
+  intros al s Hs Ha. unfold set_hooked. cbn [fst snd cut ncb outcome]. rewrite app_nil_r, Z.add_0_r.
+  split; [keeps_triv|]. repeat split; try reflexivity. intros _. symmetry; exact Ha.
+Qed.
+Lemma SemA_set_alarms al l : SemA al (set_alarms l) [] (ROk tt) (eq l).
+Proof.
+  intros s Hs Ha. unfold set_alarms. cbn [fst snd cut ncb outcome]. rewrite app_nil_r, Z.add_0_r.
+  split; [keeps_triv|]. repeat split; reflexivity.
+Qed.
+Lemma SemA_get_alarms {B} al (k : list alarm -> M B) L r Q :
+  SemA al (k al) L r Q -> SemA al (bindM (get alarms) k) L r Q.
+Proof. intros H s Hs Ha. unfold bindM, get. rewrite Ha. apply H; assumption. Qed.
 
 Lemma set_mode_cursor_idem b t : set_mode 25 true (set_mode 25 b t) = set_mode 25 true t.
 Proof. reflexivity. Qed.
 
-Lemma Sem_upd_cursor b : Sem (upd_tm (set_mode 25 b)) [] tt.
+Lemma Sem_upd_cursor b : c_hook c = true -> Sem (upd_tm (set_mode 25 b)) [] tt.
 Proof.
-  intros s Hs. unfold upd_tm. cbn [fst snd cut ncb outcome scr tm n]. rewrite app_nil_r, Z.add_0_r.
-  split; [split; [reflexivity|apply set_mode_cursor_idem]|]. repeat split; reflexivity.
+  intros Hh al s Hs Ha. unfold upd_tm. cbn [fst snd cut ncb outcome scr tm n]. rewrite app_nil_r, Z.add_0_r.
+  split; [unfold Keeps; cbn [scr tm]; split; [reflexivity|split; [apply set_mode_cursor_idem|congruence]]|].
+  repeat split; try reflexivity. intros _. symmetry; exact Ha.
 Qed.
 
-Lemma Sem_write_cursor b : Sem (write_mode 25 b) [] tt.
+Lemma Sem_write_cursor b : c_hook c = true -> Sem (write_mode 25 b) [] tt.
 Proof.
-  unfold write_mode. change (@nil tev) with (@nil tev ++ []).
-  apply Sem_seq; [apply Sem_emit_silent; reflexivity|apply Sem_upd_cursor].
+  intros Hh. unfold write_mode. change (@nil tev) with (@nil tev ++ []).
+  apply Sem_seq; [apply Sem_emit_silent; reflexivity|apply Sem_upd_cursor; exact Hh].
 Qed.
 
 Lemma Sem_conv {A} (m : M A) L L' v : Sem m L v -> L = L' -> Sem m L' v.
+Proof. intros H <-; exact H. Qed.
+Lemma SemA_conv {A} al (m : M A) L L' r Q : SemA al m L r Q -> L = L' -> SemA al m L' r Q.
 Proof. intros H <-; exact H. Qed.
 
 Lemma Sem_when (b : bool) (m : M unit) L : Sem m L tt -> Sem (if b then m else ret tt) (if b then L else []) tt.
@@ -307,15 +337,15 @@ Qed.
 (* ---------- redraw ---------- *)
 Lemma Sem_get_started {B} (k : bool -> M B) L w :
   Sem (k true) L w -> Sem (bindM (get (fun s => s_started (scr s))) k) L w.
-Proof. intros H s Hs. unfold bindM, get. rewrite Hs. apply H. exact Hs. Qed.
+Proof. intros H al s Hs Ha. unfold bindM, get. rewrite Hs. apply H; assumption. Qed.
 
 Lemma Sem_screen_draw_screen : Sem (screen_draw_screen c) [TDraw] tt.
 Proof.
   unfold screen_draw_screen.
   eapply Sem_conv; [eapply Sem_seq; [apply Sem_emit_draw|]|apply app_nil_r].
-  destruct (c_hook c); [|apply Sem_ret].
+  destruct (c_hook c) eqn:Eh; [|apply Sem_ret].
   apply Sem_get_started.
-  eapply Sem_conv; [eapply Sem_seq; [apply Sem_write_cursor|apply Sem_when; apply Sem_write_cursor]|].
+  eapply Sem_conv; [eapply Sem_seq; [apply Sem_write_cursor; exact Eh|apply Sem_when; apply Sem_write_cursor; exact Eh]|].
   destruct (w_cursor c); reflexivity.
 Qed.
 
@@ -344,46 +374,35 @@ Proof.
   unfold do_round, spec_round. apply Sem_seq; [apply Sem_for_each; apply Sem_deliver|apply Sem_entering_idle].
 Qed.
 
-(* everything event_loop.run() does before the harness ends the session *)
-Definition loop_body (al : list alarm) (rounds : list (list event)) : M unit :=
-  bindM (for_each (fire_alarm c p) al) (fun _ =>
-  bindM (entering_idle c p) (fun _ => for_each (do_round c p) rounds)).
+Lemma SemA_quit al : SemA al quit [] (RErr ExitMainLoop) (fun _ => True).
+Proof.
+  intros s Hs Ha. unfold quit, bindM, emit, raise. cbn [fst snd cut ncb outcome].
+  rewrite acts_cons. cbn [is_act is_cb orb]. rewrite !app_nil_r, Z.add_0_r.
+  split; [keeps_triv|]. repeat split; reflexivity.
+Qed.
+
 Definition spec_loop (al : list alarm) (rounds : list (list event)) : list tev :=
   flat_map (spec_alarm c) al ++ spec_draw c ++ flat_map (spec_round c) rounds.
 
-Lemma Sem_loop_body al rounds : Sem (loop_body al rounds) (spec_loop al rounds) tt.
-Proof.
-  unfold loop_body, spec_loop.
-  apply Sem_seq; [apply Sem_for_each; apply Sem_fire_alarm|].
-  apply Sem_seq; [apply Sem_entering_idle|apply Sem_for_each; apply Sem_do_round].
-Qed.
-
-Lemma SemR_conv {A} (m : M A) L L' r : SemR m L r -> L = L' -> SemR m L' r.
-Proof. intros H <-; exact H. Qed.
-
-Lemma SemR_quit : SemR quit [] (RErr ExitMainLoop).
-Proof.
-  intros s Hs. unfold quit, bindM, emit, raise. cbn [fst snd cut ncb outcome].
-  rewrite acts_cons. cbn [is_act is_cb orb]. rewrite !app_nil_r, Z.add_0_r.
-  split; [split; reflexivity|]. repeat split; reflexivity.
-Qed.
-
-Definition loop_inner (al : list alarm) (rounds : list (list event)) : M unit :=
+(* the body of event_loop.run(), before ExitMainLoop is swallowed *)
+Definition loop_inner (rounds : list (list event)) : M unit :=
+  bindM (get alarms) (fun al =>
   bindM (set_alarms []) (fun _ =>
   bindM (for_each (fire_alarm c p) al) (fun _ =>
   bindM (entering_idle c p) (fun _ =>
-  bindM (for_each (do_round c p) rounds) (fun _ => quit)))).
+  bindM (for_each (do_round c p) rounds) (fun _ => quit))))).
 
-Lemma SemR_loop_inner al rounds : SemR (loop_inner al rounds) (spec_loop al rounds) (RErr ExitMainLoop).
+Lemma SemA_loop_inner al rounds : SemA al (loop_inner rounds) (spec_loop al rounds) (RErr ExitMainLoop) (fun _ => True).
 Proof.
-  unfold loop_inner, spec_loop.
-  eapply SemR_conv; [eapply SemR_bind; [apply Sem_set_alarms|]|apply app_nil_l].
-  eapply SemR_bind; [apply Sem_for_each; apply Sem_fire_alarm|].
-  eapply SemR_bind; [apply Sem_entering_idle|].
-  eapply SemR_conv; [eapply SemR_bind; [apply Sem_for_each; apply Sem_do_round|apply SemR_quit]|apply app_nil_r].
+  unfold loop_inner, spec_loop. apply SemA_get_alarms.
+  eapply SemA_conv; [eapply SemA_bind; [apply SemA_set_alarms|]|apply app_nil_l].
+  intros al1 <-.
+  eapply SemA_step; [apply Sem_for_each; apply Sem_fire_alarm|].
+  eapply SemA_step; [apply Sem_entering_idle|].
+  eapply SemA_conv; [eapply SemA_step; [apply Sem_for_each; apply Sem_do_round|apply SemA_quit]|apply app_nil_r].
 Qed.
 
-(* the result of event_loop.run(): ExitMainLoop (planned, or the harness's final one) is swallowed *)
+(* the result of run(): ExitMainLoop (planned, or the harness's final one) is swallowed *)
 Definition loop_result (o : option fault) : res unit :=
   match o with Some (FRaise e) => RErr (UserExc e) | _ => ROk tt end.
 
@@ -397,12 +416,96 @@ Lemma event_loop_run_sem rounds s :
   fst rs = loop_result (snd (cut P (n s) L)).
 Proof.
   intros Hs L rs.
-  assert (E : rs = suppress_exit (loop_inner (alarms s) rounds) s) by reflexivity.
-  destruct (SemR_loop_inner (alarms s) rounds s Hs) as (K & A & N & R).
+  assert (E : rs = suppress_exit (loop_inner rounds) s) by reflexivity.
+  destruct (SemA_loop_inner (alarms s) rounds s Hs eq_refl) as (K & A & N & R & _).
   fold L in A, N, R. rewrite E. unfold suppress_exit.
-  destruct (loop_inner (alarms s) rounds s) as [r s1]. cbn [fst snd] in *.
+  destruct (loop_inner rounds s) as [r s1]. cbn [fst snd] in *.
   destruct (snd (cut P (n s) L)) as [[|e]|]; cbn [outcome exn_of] in R; subst r; cbn [fst snd loop_result];
     (split; [exact K|split; [exact A|split; [exact N|reflexivity]]]).
+Qed.
+
+(* ---------- _run_screen_event_loop ---------- *)
+Definition pend (next : option alarm) (al : list alarm) : list alarm :=
+  match next with Some a => a :: al | None => [] end.
+
+Lemma SemA_pop_alarm al :
+  SemA al pop_alarm [] (ROk (match al with [] => None | a :: _ => Some a end)) (eq (tl al)).
+Proof.
+  intros s Hs Ha. unfold pop_alarm, bindM, get. rewrite Ha. destruct al as [|a r].
+  - cbn [ret fst snd cut ncb outcome tl]. rewrite app_nil_r, Z.add_0_r.
+    split; [apply Keeps_refl|]. repeat split; try reflexivity. intros _; symmetry; exact Ha.
+  - unfold set_alarms, ret. cbn [fst snd cut ncb outcome tl]. rewrite app_nil_r, Z.add_0_r.
+    split; [keeps_triv|]. repeat split; reflexivity.
+Qed.
+
+Lemma SemA_fire_all : forall fuel next,
+  SemA fuel (fire_all c p fuel next) (flat_map (spec_alarm c) (pend next fuel)) (ROk tt)
+       (eq (match next with Some _ => [] | None => fuel end)).
+Proof.
+  induction fuel as [|b fuel IH]; intros [a|]; cbn [fire_all pend flat_map].
+  - eapply SemA_conv; [eapply SemA_bind; [apply Sem_fire_alarm|]|reflexivity].
+    intros al1 <-. apply Sem_ret.
+  - apply Sem_ret.
+  - eapply SemA_bind; [apply Sem_fire_alarm|]. intros al1 <-.
+    eapply SemA_conv; [eapply SemA_bind; [apply SemA_pop_alarm|]|apply app_nil_l].
+    intros al2 <-. cbn [tl]. apply (IH (Some b)).
+  - apply Sem_ret.
+Qed.
+
+Lemma Sem_process_if ks :
+  Sem (if is_nil ks then ret tt else process_input c p ks) (flat_map (spec_key c) ks) tt.
+Proof. destruct ks; cbn [is_nil]; [apply Sem_ret|apply Sem_process_input]. Qed.
+
+Lemma Sem_resize_check ks : Sem (if has_resize ks then set_size_known false else ret tt) [] tt.
+Proof. destruct (has_resize ks); [apply Sem_set_size_known|apply Sem_ret]. Qed.
+
+Lemma SemA_screen_loop : forall inputs next al,
+  (next = None -> al = []) ->
+  SemA al (screen_loop c p inputs next) (spec_screen_loop c (pend next al) inputs) (RErr ExitMainLoop) (fun _ => True).
+Proof.
+  induction inputs as [|b rest IH]; intros next al Hinv; cbn [screen_loop spec_screen_loop].
+  - eapply SemA_conv; [eapply SemA_step; [apply Sem_emit_silent; reflexivity|]|apply app_nil_l].
+    eapply SemA_conv; [eapply SemA_step; [apply Sem_emit_silent; reflexivity|apply SemA_quit]|apply app_nil_l].
+  - eapply SemA_conv; [eapply SemA_step; [apply Sem_emit_silent; reflexivity|]|apply app_nil_l].
+    eapply SemA_conv; [eapply SemA_step; [apply Sem_emit_silent; reflexivity|]|apply app_nil_l].
+    assert (Step : forall nx, (nx = None -> al = []) -> pend nx al <> [] \/ b <> [] ->
+              SemA al
+                (bindM (input_filter c p b) (fun ks' =>
+                 bindM (if is_nil ks' then ret tt else process_input c p ks') (fun _ =>
+                 bindM (get alarms) (fun al0 =>
+                 bindM (fire_all c p al0 nx) (fun _ =>
+                 bindM (if has_resize ks' then set_size_known false else ret tt) (fun _ =>
+                 bindM (draw_screen c p) (fun _ =>
+                 bindM pop_alarm (fun nx' => screen_loop c p rest nx'))))))))
+                (spec_update c b ++ flat_map (spec_alarm c) (pend nx al) ++ spec_draw c ++ spec_screen_loop c [] rest)
+                (RErr ExitMainLoop) (fun _ => True)).
+    { intros nx Hnx _. unfold spec_update. rewrite <- app_assoc.
+      eapply SemA_step; [apply Sem_input_filter|].
+      eapply SemA_step; [apply Sem_process_if|].
+      apply SemA_get_alarms.
+      eapply SemA_bind; [apply SemA_fire_all|]. intros al1 Hal1.
+      assert (al1 = []) as -> by (destruct nx; [symmetry; exact Hal1|rewrite <- Hal1; apply Hnx; reflexivity]).
+      eapply SemA_conv; [eapply SemA_step; [apply Sem_resize_check|]|apply app_nil_l].
+      eapply SemA_step; [apply Sem_draw_screen|].
+      eapply SemA_conv; [eapply SemA_bind; [apply SemA_pop_alarm|]|apply app_nil_l].
+      intros al2 <-. cbn [tl]. apply (IH None []). reflexivity. }
+    destruct next as [a|].
+    + rewrite andb_false_r. cbn [pend is_nil]. rewrite andb_false_r.
+      apply (Step (Some a)); [discriminate|left; discriminate].
+    + specialize (Hinv eq_refl). subst al. cbn [pend is_nil]. rewrite !andb_true_r.
+      destruct b as [|k0 b0]; cbn [is_nil].
+      * apply (IH None []). reflexivity.
+      * apply (Step None); [reflexivity|right; discriminate].
+Qed.
+
+Lemma SemA_run_screen_event_loop al inputs :
+  SemA al (run_screen_event_loop c p inputs) (spec_draw c ++ spec_screen_loop c al inputs) (RErr ExitMainLoop) (fun _ => True).
+Proof.
+  unfold run_screen_event_loop. eapply SemA_step; [apply Sem_draw_screen|].
+  eapply SemA_conv; [eapply SemA_bind; [apply SemA_pop_alarm|]|apply app_nil_l].
+  intros al1 <-. destruct al as [|a r]; cbn [tl].
+  - apply (SemA_screen_loop inputs None []). reflexivity.
+  - apply (SemA_screen_loop inputs (Some a) r). discriminate.
 Qed.
 
 End WithConfig.
@@ -437,12 +540,394 @@ Proof. reflexivity. Qed.
 Lemma hook_start_state c ti w t cn :
   c_hook c = true ->
   let T0 := normal_term ti w t cn in
-  exists trc,
-    fst (prefix c (init_st T0)) = ROk tt /\
-    ml_start c (snd (prefix c (init_st T0))) =
-      (ROk tt, St 0 trc (SC c T0) (TM c T0) false true true true (map AUser (c_pre_alarms c) ++ [AEnteringIdle])) /\
-    filter is_act (rev trc) = [].
+  let rs := ml_start c (snd (prefix c (init_st T0))) in
+  fst (prefix c (init_st T0)) = ROk tt /\
+  fst rs = ROk tt /\ n (snd rs) = 0 /\ scr (snd rs) = SC c T0 /\ tm (snd rs) = TM c T0 /\
+  alarms (snd rs) = map AUser (c_pre_alarms c) ++ [AEnteringIdle] /\
+  acts (snd rs) = [].
 Proof.
   destruct c as [hook filt unh hm pu pa fo ia ps pre sel hasm wk wm cur]. cbn [c_hook]. intros ->.
-  destruct hm, pa, fo, ia, ps; eexists; (split; [reflexivity|split; [reflexivity|reflexivity]]).
+  Time destruct hm, pa, fo, ia, ps; vm_compute; repeat split; reflexivity.
+Qed.
+
+(* operations that invoke no callback and do not draw *)
+Definition Silent {A} (m : M A) : Prop := forall s, acts (snd (m s)) = acts s /\ n (snd (m s)) = n s.
+
+Lemma Silent_ret {A} (v : A) : Silent (ret v).
+Proof. intros s; split; reflexivity. Qed.
+Lemma Silent_raise {A} e : Silent (@raise A e).
+Proof. intros s; split; reflexivity. Qed.
+Lemma Silent_get {A} (g : st -> A) : Silent (get g).
+Proof. intros s; split; reflexivity. Qed.
+Lemma Silent_bind {A B} (m : M A) (f : A -> M B) : Silent m -> (forall a, Silent (f a)) -> Silent (bindM m f).
+Proof.
+  intros Hm Hf s. unfold bindM. destruct (Hm s) as [A1 N1]. destruct (m s) as [[a|e] s1]; cbn [fst snd] in *.
+  - destruct (Hf a s1) as [A2 N2]. split; congruence.
+  - split; assumption.
+Qed.
+Lemma Silent_emit t : is_act t = false -> Silent (emit t).
+Proof. intros H s. unfold emit. cbn [fst snd n]. rewrite acts_cons, H, app_nil_r. split; reflexivity. Qed.
+Lemma Silent_upd_scr f : Silent (upd_scr f).
+Proof. intros s; split; reflexivity. Qed.
+Lemma Silent_upd_tm f : Silent (upd_tm f).
+Proof. intros s; split; reflexivity. Qed.
+Lemma Silent_set_size_known b : Silent (set_size_known b).
+Proof. intros s; split; reflexivity. Qed.
+Lemma Silent_set_connected b : Silent (set_connected b).
+Proof. intros s; split; reflexivity. Qed.
+Lemma Silent_set_idle_reg b : Silent (set_idle_reg b).
+Proof. intros s; split; reflexivity. Qed.
+Lemma Silent_set_hooked b : Silent (set_hooked b).
+Proof. intros s; split; reflexivity. Qed.
+Lemma Silent_set_alarms l : Silent (set_alarms l).
+Proof. intros s; split; reflexivity. Qed.
+
+Ltac silent_step :=
+  lazymatch goal with
+  | |- Silent (ret _) => apply Silent_ret
+  | |- Silent (raise _) => apply Silent_raise
+  | |- Silent (get _) => apply Silent_get
+  | |- Silent (upd_scr _) => apply Silent_upd_scr
+  | |- Silent (upd_tm _) => apply Silent_upd_tm
+  | |- Silent (set_size_known _) => apply Silent_set_size_known
+  | |- Silent (set_connected _) => apply Silent_set_connected
+  | |- Silent (set_idle_reg _) => apply Silent_set_idle_reg
+  | |- Silent (set_hooked _) => apply Silent_set_hooked
+  | |- Silent (set_alarms _) => apply Silent_set_alarms
+  | |- Silent (emit _) => apply Silent_emit; reflexivity
+  | |- Silent (bindM _ _) => apply Silent_bind; [|intros]
+  | |- Silent (if ?b then _ else _) => destruct b
+  | |- Silent (match ?o with _ => _ end) => destruct o
+  end.
+Ltac silent_all := repeat silent_step.
+
+Lemma Silent_write_mode m b : Silent (write_mode m b).
+Proof. unfold write_mode. silent_all. Qed.
+Lemma Silent_mouse_tracking b : Silent (mouse_tracking b).
+Proof.
+  unfold mouse_tracking. destruct b;
+    (apply Silent_bind; [apply Silent_write_mode|intros; apply Silent_bind; [apply Silent_write_mode|intros; apply Silent_write_mode]]).
+Qed.
+Lemma Silent_emit_descriptors_changed : Silent emit_descriptors_changed.
+Proof. unfold emit_descriptors_changed, reset_input_descriptors, unhook_event_loop, hook_event_loop. silent_all. Qed.
+Lemma Silent_signal_restore : Silent signal_restore.
+Proof. unfold signal_restore. silent_all. Qed.
+Lemma Silent_signal_init : Silent signal_init.
+Proof. unfold signal_init. silent_all. Qed.
+
+Ltac sil_known :=
+  lazymatch goal with
+  | |- Silent (write_mode _ _) => apply Silent_write_mode
+  | |- Silent (mouse_tracking _) => apply Silent_mouse_tracking
+  | |- Silent emit_descriptors_changed => apply Silent_emit_descriptors_changed
+  | |- Silent signal_restore => apply Silent_signal_restore
+  | |- Silent signal_init => apply Silent_signal_init
+  end.
+
+Lemma Silent_raw_stop c : Silent (raw_stop c).
+Proof.
+  unfold raw_stop, screen_clear, stop_mouse_restore_buffer.
+  repeat first [ silent_step | sil_known ].
+Qed.
+Lemma Silent_raw_start c : Silent (raw_start c).
+Proof.
+  unfold raw_start.
+  repeat first [ silent_step | sil_known ].
+Qed.
+Lemma Silent_screen_stop c : Silent (screen_stop c).
+Proof. unfold screen_stop. repeat first [silent_step | apply Silent_raw_stop]. Qed.
+Lemma Silent_screen_start c : Silent (screen_start c).
+Proof. unfold screen_start. repeat first [silent_step | apply Silent_raw_start]. Qed.
+Lemma Silent_ml_stop c : Silent (ml_stop c).
+Proof. unfold ml_stop, unhook_event_loop. repeat first [silent_step | apply Silent_screen_stop]. Qed.
+Lemma Silent_set_mouse_tracking c : Silent (set_mouse_tracking c).
+Proof. unfold set_mouse_tracking. repeat first [silent_step | apply Silent_mouse_tracking]. Qed.
+Lemma Silent_ml_start c : Silent (ml_start c).
+Proof.
+  unfold ml_start, reset_input_descriptors, unhook_event_loop, hook_event_loop.
+  repeat first [silent_step | apply Silent_screen_start | apply Silent_set_mouse_tracking].
+Qed.
+
+(* stopping the display from any state the loop can leave behind *)
+Lemma hook_stop_state c ti w t cn (s2 : st) :
+  c_hook c = true ->
+  let T0 := normal_term ti w t cn in
+  let T1 := normal_term ti w t 0 in
+  scr s2 = SC c T0 -> set_mode 25 true (tm s2) = TM c T0 ->
+  (fst (screen_stop c s2) = ROk tt /\ tm (snd (screen_stop c s2)) = T1 /\
+   s_started (scr (snd (screen_stop c s2))) = false) /\
+  (fst (ml_stop c s2) = ROk tt /\ tm (snd (ml_stop c s2)) = T1 /\
+   s_started (scr (snd (ml_stop c s2))) = false).
+Proof.
+  destruct c as [hook filt unh hm pu pa fo ia ps pre sel hasm wk wm cur]. cbn [c_hook]. intros ->.
+  destruct s2 as [n2 tr2 sc2 tm2 sk2 cn2 ir2 hk2 al2]. cbn [scr tm]. intros Hsc Htm. subst sc2.
+  destruct tm2 as [a1 a2 a3 a4 a5 a6 a7 a8 a9 a10 a11 a12].
+  unfold TM, normal_term in Htm. cbn [c_handle_mouse c_paste c_focus c_isatty t_tios t_winch t_tstp t_cont fst] in Htm.
+  change (set_mode 25 true (Term a1 a2 a3 a4 a5 a6 a7 a8 a9 a10 a11 a12)) with (Term a1 true a3 a4 a5 a6 a7 a8 a9 a10 a11 a12) in Htm.
+  injection Htm as E1 E3 E4 E5 E6 E7 E8 E9 E10 E11 E12. subst.
+  Time destruct hm, pa, fo, ia, cn2; vm_compute; repeat split; reflexivity.
+Qed.
+
+Lemma TM_cursor c T0 : set_mode 25 true (TM c T0) = TM c T0.
+Proof. reflexivity. Qed.
+
+(* ---------- run() on a screen with hook_event_loop ---------- *)
+Theorem hook_master c p rounds inputs ti w t cn :
+  c_hook c = true -> wf_config c ->
+  let T0 := normal_term ti w t cn in
+  let rs := session c p rounds inputs (init_st T0) in
+  let ct := cut (plan_at p) 0 (spec_hook_session c rounds) in
+  acts (snd rs) = fst ct /\ n (snd rs) = ncb (fst ct) /\ fst rs = loop_result (snd ct) /\
+  tm (snd rs) = normal_term ti w t 0 /\ s_started (scr (snd rs)) = false.
+Proof.
+  intros Hh Hwf. cbv zeta. rewrite session_unfold.
+  destruct (hook_start_state c ti w t cn Hh) as (P1 & R1 & N1 & S1 & T1 & A1 & Ac1).
+  destruct (prefix c (init_st (normal_term ti w t cn))) as [r0 s0']. cbn [fst snd] in *. subst r0.
+  unfold ml_run, ml_run_inner, suppress_exit.
+  destruct (ml_start c s0') as [r1 s1]. cbn [fst snd] in *. subst r1.
+  assert (Hst : s_started (scr s1) = true) by (rewrite S1; reflexivity).
+  pose proof (event_loop_run_sem c p Hwf rounds s1 Hst) as H. cbv zeta in H.
+  rewrite A1, N1, Ac1 in H. cbn [app] in H.
+  change (spec_loop c (map AUser (c_pre_alarms c) ++ [AEnteringIdle]) rounds) with (spec_hook_session c rounds) in H.
+  destruct H as (K & A & N & R).
+  destruct (event_loop_run c p rounds s1) as [r2 s2]. cbn [fst snd] in *.
+  destruct K as (K1 & K2 & _). rewrite S1 in K1. rewrite T1, TM_cursor in K2.
+  destruct (hook_stop_state c ti w t cn s2 Hh K1 K2) as [(F1 & F2 & F3) (G1 & G2 & G3)].
+  destruct (Silent_screen_stop c s2) as [Q1 Q2]. destruct (Silent_ml_stop c s2) as [Q3 Q4].
+  rewrite Z.add_0_l in N.
+  destruct (snd (cut (plan_at p) 0 (spec_hook_session c rounds))) as [[|e]|]; cbn [loop_result] in R |- *; subst r2.
+  - destruct (ml_stop c s2) as [r3 s3]. cbn [fst snd] in *. subst r3. cbn [fst snd].
+    repeat split; congruence.
+  - unfold bindM. destruct (screen_stop c s2) as [r3 s3]. cbn [fst snd] in *. subst r3. cbn [raise fst snd].
+    repeat split; congruence.
+  - destruct (ml_stop c s2) as [r3 s3]. cbn [fst snd] in *. subst r3. cbn [fst snd].
+    repeat split; congruence.
+Qed.
+
+(* ---------- run() on a screen without hook_event_loop ---------- *)
+Definition SCp : screen := Screen true false false None None None None.
+
+Lemma plain_start_state c ti w t cn :
+  c_hook c = false ->
+  let T0 := normal_term ti w t cn in
+  let rs := ml_start c (snd (prefix c (init_st T0))) in
+  fst (prefix c (init_st T0)) = ROk tt /\
+  fst rs = RErr CantUseExternalLoop /\ n (snd rs) = 0 /\ scr (snd rs) = SCp /\ tm (snd rs) = set_plain true T0 /\
+  alarms (snd rs) = map AUser (c_pre_alarms c) /\
+  acts (snd rs) = [].
+Proof.
+  destruct c as [hook filt unh hm pu pa fo ia ps pre sel hasm wk wm cur]. cbn [c_hook]. intros ->.
+  destruct hm, ps; vm_compute; repeat split; reflexivity.
+Qed.
+
+Lemma plain_stop_state c ti w t cn (s2 : st) :
+  c_hook c = false ->
+  let T0 := normal_term ti w t cn in
+  scr s2 = SCp -> tm s2 = set_plain true T0 ->
+  fst (screen_stop c s2) = ROk tt /\ tm (snd (screen_stop c s2)) = T0 /\
+  s_started (scr (snd (screen_stop c s2))) = false.
+Proof.
+  destruct c as [hook filt unh hm pu pa fo ia ps pre sel hasm wk wm cur]. cbn [c_hook]. intros ->.
+  destruct s2 as [n2 tr2 sc2 tm2 sk2 cn2 ir2 hk2 al2]. cbn [scr tm]. intros -> ->.
+  vm_compute. repeat split; reflexivity.
+Qed.
+
+Theorem plain_master c p rounds inputs ti w t cn :
+  c_hook c = false -> wf_config c ->
+  let T0 := normal_term ti w t cn in
+  let rs := session c p rounds inputs (init_st T0) in
+  let ct := cut (plan_at p) 0 (spec_plain_session c inputs) in
+  acts (snd rs) = fst ct /\ n (snd rs) = ncb (fst ct) /\ fst rs = loop_result (snd ct) /\
+  tm (snd rs) = T0 /\ s_started (scr (snd rs)) = false.
+Proof.
+  intros Hh Hwf. cbv zeta. rewrite session_unfold.
+  destruct (plain_start_state c ti w t cn Hh) as (P1 & R1 & N1 & S1 & T1 & A1 & Ac1).
+  destruct (prefix c (init_st (normal_term ti w t cn))) as [r0 s0']. cbn [fst snd] in *. subst r0.
+  unfold ml_run, ml_run_inner, suppress_exit.
+  destruct (ml_start c s0') as [r1 s1]. cbn [fst snd] in *. subst r1.
+  assert (Hst : s_started (scr s1) = true) by (rewrite S1; reflexivity).
+  destruct (SemA_run_screen_event_loop c p Hwf (alarms s1) inputs s1 Hst eq_refl) as (K & A & N & R & _).
+  rewrite A1, N1, Ac1 in *. cbn [app] in A. rewrite Z.add_0_l in N.
+  change (spec_draw c ++ spec_screen_loop c (map AUser (c_pre_alarms c)) inputs) with (spec_plain_session c inputs) in *.
+  unfold finally.
+  destruct (run_screen_event_loop c p inputs s1) as [r2 s2]. cbn [fst snd] in *.
+  destruct K as (K1 & _ & K3). rewrite S1 in K1.
+  assert (K2 : tm s2 = set_plain true (normal_term ti w t cn)) by (rewrite (K3 Hh); exact T1).
+  destruct (plain_stop_state c ti w t cn s2 Hh K1 K2) as (F1 & F2 & F3).
+  destruct (Silent_screen_stop c s2) as [Q1 Q2].
+  destruct (screen_stop c s2) as [r3 s3]. cbn [fst snd] in *. subst r3.
+  destruct (snd (cut (plan_at p) 0 (spec_plain_session c inputs))) as [[|e]|];
+    cbn [outcome exn_of loop_result] in R |- *; subst r2; cbn [fst snd];
+    repeat split; congruence.
+Qed.
+
+(* ---------- both kinds of screen; the clauses of the property ---------- *)
+Definition restored_term (c : config) (ti w t cn : Z) : term :=
+  if c_hook c then normal_term ti w t 0 else normal_term ti w t cn.
+
+Theorem session_master c p rounds inputs ti w t cn :
+  wf_config c ->
+  let rs := session c p rounds inputs (init_st (normal_term ti w t cn)) in
+  let ct := cut (plan_at p) 0 (spec_session c rounds inputs) in
+  acts (snd rs) = fst ct /\ n (snd rs) = ncb (fst ct) /\ fst rs = loop_result (snd ct) /\
+  tm (snd rs) = restored_term c ti w t cn /\ s_started (scr (snd rs)) = false.
+Proof.
+  intros Hwf. unfold spec_session, restored_term. destruct (c_hook c) eqn:Hh.
+  - apply hook_master; assumption.
+  - apply plain_master; assumption.
+Qed.
+
+Lemma initial_modes_normal T0 :
+  initial_modes T0 -> T0 = normal_term (fst (t_tios T0)) (t_winch T0) (t_tstp T0) (t_cont T0).
+Proof.
+  destruct T0 as [a1 a2 a3 a4 a5 a6 a7 [ti cb] a9 a10 a11 a12]. unfold initial_modes, normal_term. cbn.
+  intros (-> & -> & -> & -> & -> & -> & -> & -> & ->). reflexivity.
+Qed.
+
+Lemma input_order_lemma c p rounds inputs T0 :
+  wf_config c -> initial_modes T0 ->
+  acts (snd (session c p rounds inputs (init_st T0))) =
+  fst (cut (plan_at p) 0 (spec_session c rounds inputs)).
+Proof.
+  intros Hwf Hi. rewrite (initial_modes_normal T0 Hi). apply session_master. exact Hwf.
+Qed.
+
+Lemma input_order_prefix_lemma c p rounds inputs T0 :
+  wf_config c -> initial_modes T0 ->
+  exists rest, spec_session c rounds inputs = acts (snd (session c p rounds inputs (init_st T0))) ++ rest.
+Proof.
+  intros Hwf Hi. rewrite (input_order_lemma c p rounds inputs T0 Hwf Hi). apply cut_prefix.
+Qed.
+
+Definition callbacks_of_session c rounds inputs : nat := Z.to_nat (ncb (spec_session c rounds inputs)).
+
+Lemma no_fault_complete_lemma c p rounds inputs T0 :
+  wf_config c -> initial_modes T0 ->
+  first_fault (plan_at p) 0 (callbacks_of_session c rounds inputs) = None ->
+  acts (snd (session c p rounds inputs (init_st T0))) = spec_session c rounds inputs /\
+  fst (session c p rounds inputs (init_st T0)) = ROk tt.
+Proof.
+  intros Hwf Hi Hf. rewrite (initial_modes_normal T0 Hi).
+  destruct (session_master c p rounds inputs (fst (t_tios T0)) (t_winch T0) (t_tstp T0) (t_cont T0) Hwf) as (A & N & R & _).
+  pose proof (cut_first_fault (plan_at p) (spec_session c rounds inputs) 0) as H.
+  unfold callbacks_of_session in Hf. rewrite Hf in H.
+  split; [rewrite A; apply cut_nofault_all; exact H|rewrite R, H; reflexivity].
+Qed.
+
+Lemma exit_is_normal_lemma c p rounds inputs T0 j :
+  wf_config c -> initial_modes T0 ->
+  first_fault (plan_at p) 0 (callbacks_of_session c rounds inputs) = Some (j, FExit) ->
+  fst (session c p rounds inputs (init_st T0)) = ROk tt /\
+  n (snd (session c p rounds inputs (init_st T0))) = j + 1.
+Proof.
+  intros Hwf Hi Hf. rewrite (initial_modes_normal T0 Hi).
+  destruct (session_master c p rounds inputs (fst (t_tios T0)) (t_winch T0) (t_tstp T0) (t_cont T0) Hwf) as (A & N & R & _).
+  pose proof (cut_first_fault (plan_at p) (spec_session c rounds inputs) 0) as H.
+  unfold callbacks_of_session in Hf. rewrite Hf in H. destruct H as [H1 H2].
+  split; [rewrite R, H1; reflexivity|rewrite N; lia].
+Qed.
+
+Lemma other_propagates_lemma c p rounds inputs T0 j e :
+  wf_config c -> initial_modes T0 ->
+  first_fault (plan_at p) 0 (callbacks_of_session c rounds inputs) = Some (j, FRaise e) ->
+  fst (session c p rounds inputs (init_st T0)) = RErr (UserExc e) /\
+  n (snd (session c p rounds inputs (init_st T0))) = j + 1.
+Proof.
+  intros Hwf Hi Hf. rewrite (initial_modes_normal T0 Hi).
+  destruct (session_master c p rounds inputs (fst (t_tios T0)) (t_winch T0) (t_tstp T0) (t_cont T0) Hwf) as (A & N & R & _).
+  pose proof (cut_first_fault (plan_at p) (spec_session c rounds inputs) 0) as H.
+  unfold callbacks_of_session in Hf. rewrite Hf in H. destruct H as [H1 H2].
+  split; [rewrite R, H1; reflexivity|rewrite N; lia].
+Qed.
+
+(* run() never lets anything else out: ExitMainLoop is always swallowed *)
+Lemma outcome_cases_lemma c p rounds inputs T0 :
+  wf_config c -> initial_modes T0 ->
+  fst (session c p rounds inputs (init_st T0)) = ROk tt \/
+  exists j e, plan_at p j = Some (FRaise e) /\ (forall i, 0 <= i < j -> plan_at p i = None) /\
+              n (snd (session c p rounds inputs (init_st T0))) = j + 1 /\
+              fst (session c p rounds inputs (init_st T0)) = RErr (UserExc e).
+Proof.
+  intros Hwf Hi.
+  destruct (first_fault (plan_at p) 0 (callbacks_of_session c rounds inputs)) as [[j [|e]]|] eqn:Hf.
+  - left. eapply exit_is_normal_lemma; eassumption.
+  - right. destruct (first_fault_none_before _ _ _ _ _ Hf) as (H1 & H2 & H3).
+    destruct (other_propagates_lemma c p rounds inputs T0 j e Hwf Hi Hf) as [R N].
+    exists j, e. repeat split; assumption.
+  - left. eapply no_fault_complete_lemma; eassumption.
+Qed.
+
+Lemma always_restored_lemma c p rounds inputs T0 :
+  wf_config c -> initial_modes T0 -> (c_hook c = true -> t_cont T0 = 0) ->
+  tm (snd (session c p rounds inputs (init_st T0))) = T0 /\
+  s_started (scr (snd (session c p rounds inputs (init_st T0)))) = false.
+Proof.
+  intros Hwf Hi Hc. rewrite (initial_modes_normal T0 Hi).
+  destruct (session_master c p rounds inputs (fst (t_tios T0)) (t_winch T0) (t_tstp T0) (t_cont T0) Hwf) as (_ & _ & _ & T & S).
+  split; [|exact S]. rewrite T. unfold restored_term. destruct (c_hook c); [rewrite (Hc eq_refl)|]; reflexivity.
+Qed.
+
+Lemma initial_modes_set_cont T0 :
+  initial_modes T0 -> set_cont 0 T0 = normal_term (fst (t_tios T0)) (t_winch T0) (t_tstp T0) 0.
+Proof.
+  destruct T0 as [a1 a2 a3 a4 a5 a6 a7 [ti cb] a9 a10 a11 a12]. unfold initial_modes, normal_term, set_cont. cbn.
+  intros (-> & -> & -> & -> & -> & -> & -> & -> & ->). reflexivity.
+Qed.
+
+(* whatever the initial SIGCONT handler: everything else is restored, SIGCONT is left at SIG_DFL *)
+Lemma restored_except_sigcont_lemma c p rounds inputs T0 :
+  wf_config c -> initial_modes T0 ->
+  tm (snd (session c p rounds inputs (init_st T0))) = (if c_hook c then set_cont 0 T0 else T0).
+Proof.
+  intros Hwf Hi.
+  destruct T0 as [a1 a2 a3 a4 a5 a6 a7 [ti cb] a9 a10 a11 a12]. unfold initial_modes in Hi. cbn in Hi.
+  destruct Hi as (-> & -> & -> & -> & -> & -> & -> & -> & ->).
+  change (Term false true false false false false false (ti, false) a9 a10 a11 false) with (normal_term ti a9 a10 a11).
+  destruct (session_master c p rounds inputs ti a9 a10 a11 Hwf) as (_ & _ & _ & T & S).
+  rewrite T. unfold restored_term. destruct (c_hook c); reflexivity.
+Qed.
+
+(* ---------- reading the specification ---------- *)
+Lemma In_overlay_spec c t : In t (overlay_spec c) -> t = TRender.
+Proof. unfold overlay_spec. destruct (c_pop_ups c); cbn; intuition congruence. Qed.
+
+(* a key the selectable topmost widget was offered reaches unhandled_input exactly when the widget
+   returned a key (did not handle it) and that key is not the REDRAW_SCREEN command *)
+Ltac not_in_there H :=
+  exfalso; repeat (destruct H as [H|H]); try discriminate H; try contradiction;
+  apply In_overlay_spec in H; discriminate H.
+
+Lemma unhandled_iff_lemma c x :
+  w_selectable c = true -> c_unhandled c <> None ->
+  let r := widget_keypress c x in
+  In (TUnhandled (KKey r)) (spec_key c (KKey x)) <-> (r <> 0 /\ r <> 12).
+Proof.
+  intros Hs Hu r. cbn [spec_key]. rewrite Hs. fold r.
+  rewrite !in_app_iff. cbn [In]. unfold spec_after, spec_unhandled, is_redraw.
+  destruct (c_unhandled c) as [u|]; [clear Hu|congruence].
+  destruct (r =? 0) eqn:E0; [apply Z.eqb_eq in E0|apply Z.eqb_neq in E0].
+  - split; [|intros [H _]; congruence]. intros H. not_in_there H.
+  - destruct (r =? 12) eqn:E12; [apply Z.eqb_eq in E12|apply Z.eqb_neq in E12]; cbn [In].
+    + split; [|intros [_ H]; congruence]. intros H. not_in_there H.
+    + split; [intros _; split; assumption|]. intros _. right. right. left. reflexivity.
+Qed.
+
+(* the same for mouse events *)
+Lemma mouse_unhandled_iff_lemma c b cl rw :
+  w_has_mouse c = true -> c_unhandled c <> None ->
+  In (TUnhandled (KMouse b cl rw)) (spec_key c (KMouse b cl rw)) <-> widget_mouse c b = false.
+Proof.
+  intros Hm Hu. cbn [spec_key]. rewrite Hm. rewrite !in_app_iff. cbn [In].
+  unfold spec_after, spec_unhandled. cbn [is_redraw].
+  destruct (c_unhandled c) as [u|]; [clear Hu|congruence].
+  destruct (widget_mouse c b); cbn [In].
+  - split; [|discriminate]. intros H. not_in_there H.
+  - split; [reflexivity|]. intros _. right. right. left. reflexivity.
+Qed.
+
+(* every round of events ends with: render the topmost widget, then screen.draw_screen *)
+Lemma round_ends_with_redraw_lemma c r : exists l, spec_round c r = l ++ [TRender; TDraw].
+Proof.
+  unfold spec_round, spec_draw. exists (flat_map (spec_event c) r ++ overlay_spec c).
+  rewrite <- app_assoc. reflexivity.
 Qed.
